@@ -297,6 +297,23 @@ class Interp:
             return self.call(f.func, list(f.args) + list(a), {**f.keywords, **kw})
         if f in (pd.Series, pd.DataFrame) and has_sym(a):
             return _construct(f, *a, **kw)
+        if has_sym(a) and self.env is not None:
+            # a concrete pandas operand next to symbolic ones (e.g. a source partition whose selected part holds no tagged cell,
+            # such as its index alone): lift it into the model so that both sides speak about the same rows
+            lifted = []
+            for x in a:
+                if isinstance(x, (pd.DataFrame, pd.Series)) and len(x):
+                    try:
+                        x = self.env.convert(x)
+                    except Unsupported:
+                        pass
+                elif isinstance(x, pd.Index) and len(x) and not isinstance(x, pd.MultiIndex):
+                    try:
+                        x = self.env.convert(x.to_series()).index
+                    except Exception:
+                        pass
+                lifted.append(x)
+            a = lifted
         try:
             out = f(*a, **kw)
             if isinstance(out, (pd.DataFrame, pd.Series)) and self.env is not None and self.env.has_tags(out):
